@@ -103,6 +103,7 @@ func runC26(c *core.Check) {
 	if pk == nil {
 		return
 	}
+	deadStateRule(c, pk) // no unexported field is read without a writer
 	info := pk.TypesInfo
 	wfd := prog.FuncDecl("./cmd/internal/gopfmt", "writeFileWithBackup")
 	gfd := prog.FuncDecl("./cmd/internal/gopfmt", "gopfmt")
